@@ -15,6 +15,7 @@ import (
 	"verifharness/drv/fwd"
 	"verifharness/drv/hb"
 	"verifharness/drv/idg"
+	"verifharness/drv/ls"
 	"verifharness/drv/pk"
 	"verifharness/drv/rb"
 	"verifharness/drv/rbs"
@@ -85,6 +86,8 @@ func main() {
 		os.Exit(idg.Main(os.Args[2:]))
 	case "dd":
 		os.Exit(dd.Main(os.Args[2:]))
+	case "ls":
+		os.Exit(ls.Main(os.Args[2:]))
 	case "hb":
 		os.Exit(hb.Main(os.Args[2:]))
 	default:
